@@ -18,6 +18,13 @@ class VariableBoundBoundsMinPropagator(VariableBoundMinPropagator):
         # Ensure we re-evaluate when the other bounds change
         other.add_propagator(self)
         
+    def propagate(self):
+        if len(self.other.domain.range_l) == 0:
+            # The other variable's domain is already empty (contradicting
+            # constraints): there is no bound to derive from it
+            return False
+        return super().propagate()
+        
     def min(self):
         return (self.other.domain.range_l[0][0]+self.offset)
     
